@@ -222,20 +222,20 @@ def main(ctx):
         fs_consts(3, 3, NOMOVE, rule='strip', rewrite='none'),
         fsdefs(rp[:5], ['..', '/..', 'a'], 'TreesSmall'),
         ['AllTouchedUnderRoot'], view=True, workers=W)
-    for wit in ('NeverLink', 'NeverMoved'):
+    for wit in (() if quick else ('NeverLink', 'NeverMoved')):
         jobs[f'fs witness {wit}'] = (lambda wit=wit: run_mc(
             'PathConfineFS', f'fs_w_{wit}', fs_consts(3, 3, ALLOPS, rule='strip'),
             fsdefs(rp[:4], ['a', '/'], 'TreesAll'), [wit], view=True,
             workers=2))
-    nsim = 120 if quick else 1500
+    nsim = 25 if quick else 400
     for bias in ('all', 'ok'):
         def sim(bias=bias):
             d = tlc.workdir(f'c13_sim_{bias}_out')
             return run_mc(
                 'PathConfineFS', f'fs_sim_{bias}',
                 fs_consts(8, 4, ALLOPS, bias=bias),
-                fsdefs(rp + ['a/../b', '//a/../b'],
-                       rel_t + ['/', '/a', '../a', 'a/b'], 'TreesAll'),
+                fsdefs(rp + ['//a/../b'],
+                       rel_t + ['/', '/a', 'a/b'], 'TreesAll'),
                 [], workers=2, sim_dir=d,
                 simulate=f'file={d}/tr,num={nsim}', depth=9,
                 seed=ctx.seed + 11)
@@ -250,7 +250,7 @@ def main(ctx):
     jobs['scp sink without name check'] = lambda: run_mc(
         'PathConfineDL', 'scp_nochk', dl_consts('scp', False, 3), scpdefs,
         ['AllCreatedUnderDest'], workers=2)
-    for wit in ('NeverNested', 'NeverCreated'):
+    for wit in (() if quick else ('NeverNested', 'NeverCreated')):
         jobs[f'scp witness {wit}'] = (lambda wit=wit: run_mc(
             'PathConfineDL', f'scp_w_{wit}', dl_consts('scp', True, 3),
             scpdefs, [wit], workers=2))
@@ -284,10 +284,12 @@ def main(ctx):
         'get as written': 'AllCreatedUnderDest',
         'get with name filter, links': 'AllCreatedUnderDest',
     }
-    with ThreadPoolExecutor(max_workers=5 if quick else 4) as ex:
+    with ThreadPoolExecutor(max_workers=4) as ex:
         futs = {name: ex.submit(fn) for name, fn in jobs.items()}
         results = {name: f.result() for name, f in futs.items()}
     for name, res in results.items():
+        if name in expect and expect[name] is not None and name not in jobs:
+            continue
         if os.environ.get('C13_DEBUG'):
             print(f'  tlc {name}: {res.wall:.1f}s distinct={res.distinct} '
                   f'violation={res.violation} error={res.error}')
@@ -297,12 +299,20 @@ def main(ctx):
             ctx.add_tlc(name, res)
             continue
         ctx.require_tlc_ok(name, res, expect_violation=expect.get(name))
+    if os.environ.get('C13_DEBUG'):
+        import time
+        print(f'  tlc phase done at {time.time() - ctx.t0:.1f}s')
 
     # ---- 2. part (i): the mapping --------------------------------------
     rule = replay_map(ctx, pc, results, quick)
 
     # ---- 3. part (ii): request sequences --------------------------------
+    if os.environ.get('C13_DEBUG'):
+        import time
+        print(f'  map replay done at {time.time() - ctx.t0:.1f}s')
     replay_fs(ctx, pc, results, rule, quick)
+    if os.environ.get('C13_DEBUG'):
+        print(f'  fs replay done at {time.time() - ctx.t0:.1f}s')
 
     # ---- 4. part (iii): downloads ----------------------------------------
     replay_dl(ctx, pc, results, quick)
@@ -339,6 +349,7 @@ def replay_map(ctx, pc, results, quick):
     ctx.require(len(strip) > 3000 and len(strip) == len(asis),
                 f'map tables incomplete: {len(strip)} / {len(asis)}')
     world = pc.ServerWorld()
+    esc = MapEscapes()
     try:
         root = world.area.root
         paths = sorted(strip)
@@ -349,7 +360,6 @@ def replay_map(ctx, pc, results, quick):
                 return root + mapped[4:]
             return mapped
         match = {'asis': 0, 'strip': 0}
-        escapes = []
         for p, r in zip(paths, real):
             r = r.decode()
             for name, tab in (('asis', asis), ('strip', strip)):
@@ -358,7 +368,7 @@ def replay_map(ctx, pc, results, quick):
             loc, _err = pc.kwalk(r, True)
             ctx.count(('map', p), nontrivial=True)
             if not pc.under(root, loc):
-                escapes.append((p, r))
+                esc.add(p, 'map_path', [r, loc])
         if match['strip'] == len(paths):
             rule = 'strip'
         elif match['asis'] == len(paths):
@@ -367,12 +377,11 @@ def replay_map(ctx, pc, results, quick):
             rule = 'strip'
             bad = [p for p, r in zip(paths, real)
                    if concrete(strip[p][0]) != r.decode()][:5]
-            if not escapes:
+            if not esc.forms:
                 ctx.divergence(f'map_path differs from both modelled rules, '
                                f'e.g. on {bad}')
         ctx.sample({'part': 'map_path', 'paths': len(paths), 'rule_followed':
                     rule, 'example': [paths[7], real[7].decode()]})
-        report_map_escapes(ctx, escapes, 'SFTPServer.map_path')
 
         # every operation x every path, through real requests
         table = strip if rule == 'strip' else asis
@@ -385,23 +394,27 @@ def replay_map(ctx, pc, results, quick):
         n2 = 2 if quick else 3
         sweep = [p for p in paths if p.count('/') < n1]
         pairs = [p for p in paths if p.count('/') < n2]
-        wire_esc = {}
         nreq = 0
         world.reset(tree)
+
+        def outside(x):
+            return table[x][1][:2] != ('T', 'R')
 
         def one(op, p, q=''):
             nonlocal nreq
             st, _detail, events = world.request(op, p.encode(), q.encode())
             nreq += 1
             bad = world.judge(events)
-            pred = any(not (table[x][1][:2] == ('T', 'R')) for x in
-                       ([p, q] if op in ops2 and op != 'symlink' else
-                        [q] if op == 'symlink' else [p]))
-            if op == 'symlink' and p.startswith('/'):
-                pred = pred       # an absolute target is mapped, not touched
+            if op == 'realpath':
+                pred = False
+            elif op == 'symlink':
+                pred = outside(q)   # the target is stored, not touched
+            elif op in ops2:
+                pred = outside(p) or outside(q)
+            else:
+                pred = outside(p)
             if bad:
-                wire_esc.setdefault(op, []).append(
-                    (p, q, [e.as_list() for e in bad[:2]]))
+                esc.add(p if not q else f'{p} {q}', op, bad[0].as_list())
             elif pred:
                 ctx.divergence(f'{op} {p!r} {q!r}: model predicts a location '
                                f'outside the root, none observed')
@@ -417,10 +430,7 @@ def replay_map(ctx, pc, results, quick):
                     one(op, p, q)
         out = pc.outside_changes(world.tree(), ('T', 'R'))
         ctx.traces_validated(nreq)
-        for op, lst in sorted(wire_esc.items()):
-            report_map_escapes(ctx, [(p + (' ' + q if q else ''), ev)
-                                     for p, q, ev in lst],
-                               f'request {op}', op=op)
+        esc.report(ctx)
         if out:
             ctx.violation({'module': 'PathConfine', 'kind': 'outside-changed',
                            'part': 'wire sweep'},
@@ -435,27 +445,37 @@ def replay_map(ctx, pc, results, quick):
 
 
 def path_form(p):
-    first = p.split(' ')[0]
-    if first.startswith('//') and not first.startswith('///'):
-        return 'exactly-two-leading-slashes'
+    for part in p.split(' '):
+        if part.startswith('//') and not part.startswith('///'):
+            return 'exactly-two-leading-slashes'
     return 'other'
 
 
-def report_map_escapes(ctx, escapes, where, op=None):
-    by_form = {}
-    for p, detail in escapes:
-        by_form.setdefault(path_form(p), []).append((p, detail))
-    for form, lst in sorted(by_form.items()):
-        sig = {'module': 'PathConfine', 'kind': 'map-path', 'form': form}
-        if op:
-            sig['op'] = op
-        if form == 'other':
-            sig['paths'] = sorted(p for p, _ in lst)[:3]
-        ex = sorted(lst, key=lambda x: (len(x[0]), x[0]))[:3]
-        ctx.violation(sig, f'{where}: {len(lst)} path(s) of form {form} are '
-                      f'mapped/resolved outside the chroot, e.g. {ex}',
-                      replay={'kind': 'map' if op is None else 'wire',
-                              'op': op, 'paths': [p for p, _ in ex]})
+class MapEscapes:
+    """Escapes caused by the textual mapping itself, grouped by the form of
+    the offending path (one violation per form)."""
+
+    def __init__(self):
+        self.forms = {}
+
+    def add(self, p, where, detail):
+        f = self.forms.setdefault(path_form(p), {'n': 0, 'where': {}, 'ex': []})
+        f['n'] += 1
+        f['where'][where] = f['where'].get(where, 0) + 1
+        if len(f['ex']) < 400:
+            f['ex'].append((p, where, detail))
+
+    def report(self, ctx):
+        for form, f in sorted(self.forms.items()):
+            ex = sorted(f['ex'], key=lambda x: (len(x[0]), x[0], x[1]))
+            sig = {'module': 'PathConfine', 'kind': 'map-path', 'form': form}
+            if form == 'other':
+                sig['paths'] = sorted(set(e[0] for e in ex))[:3]
+            ctx.violation(
+                sig, f'chroot escape by path string alone: {f["n"]} case(s) '
+                f'with a path of form {form} reached a location outside the '
+                f'root ({f["where"]}); e.g. {ex[:3]}',
+                replay={'kind': 'map', 'examples': ex[:10]})
 
 
 # --------------------------------------------------------------------------
@@ -476,7 +496,8 @@ def conv_req(r):
 
 def replay_fs(ctx, pc, results, rule, quick):
     world = pc.ServerWorld()
-    found = {}          # (kind, requests) -> example
+    found = {}          # (kind, setup) -> (use, example)
+    cache = {}
     nseq = 0
     try:
         # (a) simulated behaviours: conformance step by step
@@ -498,55 +519,60 @@ def replay_fs(ctx, pc, results, rule, quick):
                 key = tuple(s['req'] for s in r['steps'])
                 ctx.count(('sim', key), nontrivial=any(
                     s['st'] == 'ok' for s in r['steps']))
-                if nseq % 40 == 1:
+                if nseq % 25 == 1:
                     ctx.sample({'part': 'fs behaviour', 'init': sorted(
                         '/'.join(k) for k in tree_from_model(init)),
                         'steps': r['steps']})
-                note_escapes(pc, world, found, tree_from_model(init), reqs, r)
-                if r['diverged'] and not r['escapes']:
+                note_escapes(pc, world, found, cache, tree_from_model(init),
+                             reqs, r)
+                if r['diverged']:
                     ctx.divergence(f'fs behaviour {key}: {r["diverged"]}')
-                elif r['diverged']:
-                    ctx.divergence(f'fs behaviour {key} (escaping): '
-                                   f'{r["diverged"]}')
         # (b) every escaping history TLC found for the server as written
         hists = [h[0] for h in printed_blocks(
             results['fs as written (escape histories)'], 'ESC')]
         ctx.require(len(hists) > 10, 'no escape histories from TLC')
         hists.sort(key=lambda h: (len(h), json.dumps(h)))
-        if quick:
-            hists = hists[::max(1, len(hists) // 500)]
+        by_setup = {}
         for h in hists:
-            reqs = [conv_req(x) for x in h]
-            r = pc.run_sequence(world, {}, reqs)
-            nseq += 1
-            ctx.count(('esc', tuple(s['req'] for s in r['steps'])))
-            if not r['escapes']:
-                ctx.divergence('model predicts an escape, none observed: ' +
-                               '; '.join(pc.req_str(x) for x in reqs))
-                continue
-            note_escapes(pc, world, found, {}, reqs, r)
+            by_setup.setdefault(json.dumps(h[:-1]), []).append(h)
+        limit = 3 if quick else 1000
+        for _setup, group in by_setup.items():
+            for k, h in enumerate(group[:limit]):
+                reqs = [conv_req(x) for x in h]
+                r = pc.run_sequence(world, {}, reqs)
+                nseq += 1
+                ctx.count(('esc', tuple(s['req'] for s in r['steps'])))
+                if not r['escapes']:
+                    ctx.divergence('model predicts an escape, none observed: '
+                                   + '; '.join(pc.req_str(x) for x in reqs))
+                elif k == 0:
+                    note_escapes(pc, world, found, cache, {}, reqs, r)
         # (c) fixed regression histories (re-established findings)
         for name, reqs in REGRESSIONS:
             r = pc.run_sequence(world, {}, reqs)
             nseq += 1
             ctx.count(('regression', name))
-            note_escapes(pc, world, found, {}, reqs, r)
+            note_escapes(pc, world, found, cache, {}, reqs, r)
         ctx.traces_validated(nseq)
-        # report: per kind, the shortest few minimal histories
+        # report: per kind, the shortest few minimal setups
         per_kind = {}
-        for (kind, reqs), ex in found.items():
-            per_kind.setdefault(kind, []).append((reqs, ex))
+        for (kind, setup), ex in found.items():
+            per_kind.setdefault(kind, []).append((setup, ex))
         for kind, lst in sorted(per_kind.items()):
             lst.sort(key=lambda x: (len(x[0]), x[0]))
-            ctx.notes.append(f'{kind}: {len(lst)} distinct minimal escaping '
-                             f'histories')
-            for reqs, ex in lst[:4]:
+            ctx.notes.append(f'{kind}: {len(lst)} distinct minimal setups: ' +
+                             ' | '.join('; '.join(x[0]) for x in lst[:12]))
+            if kind == 'map-path':
+                continue            # reported by the mapping part
+            for setup, (use, ex) in lst[:3]:
                 ctx.violation(
                     {'module': 'PathConfine', 'kind': kind,
-                     'requests': list(reqs)},
-                    f'chroot escape ({kind}): after {list(reqs[:-1])} the '
-                    f'request {reqs[-1]} made the server touch {ex}',
-                    replay={'kind': 'server-seq', 'requests': list(reqs)})
+                     'setup': list(setup)},
+                    f'chroot escape ({kind}): after {list(setup)} the request '
+                    f'{use} made the server touch {ex} (outside the root); '
+                    f'{len(lst)} distinct minimal setups of this kind',
+                    replay={'kind': 'server-seq',
+                            'requests': list(setup) + [use]})
     finally:
         world.close()
 
@@ -591,22 +617,27 @@ def canon_names(reqs):
     return [(op, conv(p), conv(q)) for op, p, q in reqs]
 
 
-def note_escapes(pc, world, found, init, reqs, r):
+def note_escapes(pc, world, found, cache, init, reqs, r):
     if not r['escapes']:
         return
     idx, kinds, evs = r['escapes'][0]
     seq = reqs[:idx + 1]
     for kind in kinds:
         if kind == 'map-path':
-            key = (kind, ('path of form //x',))
-            found.setdefault(key, evs[0][2])
+            found.setdefault((kind, ('path of form //x',)),
+                             (pc.req_str(seq[-1]), evs[0][2]))
             continue
-        small = pc.minimise(world, init, seq, kind) if len(seq) > 1 else seq
-        if not init:
-            small = canon_names(small)
-        strs = tuple(([f'init {sorted("/".join(k) for k in init)}']
-                      if init else []) + [pc.req_str(x) for x in small])
-        found.setdefault((kind, strs), evs[0][2])
+        ck = (kind, json.dumps(sorted(init)), tuple(seq[:-1]))
+        if ck not in cache:
+            small = pc.minimise(world, init, seq, kind) if len(seq) > 1 \
+                else seq
+            if not init:
+                small = canon_names(small)
+            cache[ck] = small
+        small = cache[ck]
+        setup = tuple(([f'init {sorted("/".join(k) for k in init)}']
+                       if init else []) + [pc.req_str(x) for x in small[:-1]])
+        found.setdefault((kind, setup), (pc.req_str(small[-1]), evs[0][2]))
 
 
 # --------------------------------------------------------------------------
@@ -649,36 +680,43 @@ def dl_real_shape(snap, area_top):
 DECOY_LOCS = {('T', 'secret'), ('T', 'sdir'), ('T', 'sdir', 'inner')}
 
 
+def has_link(hist):
+    return any(e.get('type') == 'link' or has_link(e.get('sub', []))
+               for e in hist)
+
+
 def replay_dl(ctx, pc, results, quick):
     world = pc.DownloadWorld()
     top = world.area.top
     found = {}
+    cache = {}
     n = 0
     try:
-        for name, mode in (('scp sink (exhaustive + table)', 'scp'),
-                           ('get as written (table)', 'get')):
+        for name, mode, cap in (('scp sink (exhaustive + table)', 'scp', 1500),
+                                ('get as written (table)', 'get', 1000)):
             cases = [c[0] for c in printed_blocks(results[name], 'CASE')]
             ctx.require(len(cases) > 50, f'{name}: no case table')
-            if quick and len(cases) > 2500:
-                cases = cases[::len(cases) // 2500 + 1]
-            for _mode, cfg, hist, state, created, tree in cases:
+            cases.sort(key=lambda c: json.dumps(c, sort_keys=True))
+            if quick and len(cases) > cap:
+                cases = cases[::len(cases) // cap + 1]
+            for _mode, cfg, hist, _state, created, tree in cases:
                 created = [tuple(l) for l in created['$set']]
                 mesc = any(l[:2] != ('T', 'D') for l in created)
                 if mode == 'scp':
-                    script = [(r['a'], '/'.join(r['name']).encode()
-                               if r['a'] in 'CD' else b'') for r in hist]
+                    script = scp_script(hist)
                     r = world.run_scp(script, cfg['dest'], cfg['cont'],
                                       preserve=(n % 2 == 1))
                     desc = [f'{a} {nm.decode()!r}' for a, nm in script]
                 else:
                     ents = [conv_ent(e, top) for e in hist]
                     r = world.run_get(ents, cfg['dest'], cfg['cont'],
-                                      preserve=(n % 3 == 2))
+                                      preserve=(n % 3 == 2 and
+                                                not has_link(hist)))
                     desc = [ent_str(e) for e in ents]
                 n += 1
                 ctx.count((mode, cfg['dest'], cfg['cont'], tuple(desc)),
                           nontrivial=bool(created))
-                if n % 400 == 1:
+                if n % 300 == 1:
                     ctx.sample({'part': mode, 'dest': cfg['dest'],
                                 'error_handler': cfg['cont'], 'input': desc,
                                 'exception': r['exc'], 'created': sorted(
@@ -686,62 +724,89 @@ def replay_dl(ctx, pc, results, quick):
                                         r['snap'], top))})
                 resc = bool(r['escapes'] or r['outside'])
                 if resc:
-                    note_dl(pc, world, found, mode, cfg, hist, r, top)
+                    note_dl(pc, world, found, cache, mode, cfg, hist, r, top)
                 if resc != mesc:
                     if not resc:
                         ctx.divergence(f'{mode} {cfg} {desc}: model predicts '
                                        f'creation outside dest, none observed')
                     else:
                         ctx.divergence(f'{mode} {cfg} {desc}: creation outside '
-                                       f'dest not predicted by the model')
+                                       f'dest not predicted by the model: '
+                                       f'{[e.as_list() for e in r["escapes"]]}'
+                                       f' {r["outside"]}')
                 elif not resc:
                     a = dl_real_shape(r['snap'], top)
                     b = dl_model_shape(tree['$set'])
                     if a != b:
                         ctx.divergence(f'{mode} {cfg} {desc}: tree observed='
                                        f'{a} predicted={b} exc={r["exc"]}')
+        # fixed cases: attribute preservation through a planted link
+        for hist in PRESERVE_CASES:
+            ents = [conv_ent(e, top) for e in hist]
+            r = world.run_get(ents, 'dir', True, preserve=True)
+            n += 1
+            ctx.count(('get-preserve', tuple(ent_str(e) for e in ents)))
+            if r['escapes'] or r['outside']:
+                note_dl(pc, world, found, cache, 'get',
+                        {'dest': 'dir', 'cont': True}, hist, r, top,
+                        preserve=True)
         ctx.traces_validated(n)
         per_kind = {}
         for (kind, inp), ex in found.items():
             per_kind.setdefault(kind, []).append((inp, ex))
         for kind, lst in sorted(per_kind.items()):
             lst.sort(key=lambda x: (len(x[0]), x[0]))
-            ctx.notes.append(f'{kind}: {len(lst)} distinct minimal inputs')
-            for inp, ex in lst[:4]:
+            ctx.notes.append(f'{kind}: {len(lst)} distinct minimal inputs: ' +
+                             ' | '.join('; '.join(x[0]) for x in lst[:12]))
+            for inp, ex in lst[:3]:
                 ctx.violation(
                     {'module': 'PathConfine', 'kind': kind, 'input': list(inp)},
                     f'download wrote outside the destination ({kind}): remote '
-                    f'side sent {list(inp)}; local effect {ex}',
+                    f'side sent {list(inp)}; local effect {ex}; {len(lst)} '
+                    f'distinct minimal inputs of this kind',
                     replay={'kind': 'download', 'input': list(inp)})
     finally:
         world.close()
 
 
-def note_dl(pc, world, found, mode, cfg, hist, r, top):
+PRESERVE_CASES = [
+    [ent('a', 'link', '/T/sdir'), ent('a', 'dir', sub=[])],
+]
+
+
+def scp_script(hist):
+    return [(x['a'], '/'.join(x['name']).encode() if x['a'] in 'CD' else b'')
+            for x in hist]
+
+
+def note_dl(pc, world, found, cache, mode, cfg, hist, r, top, preserve=False):
     """classify + minimise an escaping download"""
+    import posixpath
     dest = world.area.dest
 
     def run(h):
         if mode == 'scp':
-            return world.run_scp([(x['a'], '/'.join(x['name']).encode()
-                                   if x['a'] in 'CD' else b'') for x in h],
-                                 cfg['dest'], cfg['cont'], False)
+            return world.run_scp(scp_script(h), cfg['dest'], cfg['cont'],
+                                 False)
         return world.run_get([conv_ent(e, top) for e in h], cfg['dest'],
-                             cfg['cont'])
+                             cfg['cont'], preserve=preserve)
 
     def kind_of(res):
-        import posixpath
         evs = res['escapes']
+        base = 'scp' if mode == 'scp' else 'get'
         if not evs:
-            return 'outside-changed' if res['outside'] else None
+            return base + '-outside-changed' if res['outside'] else None
         textual = posixpath.normpath(evs[0].path)
         if evs[0].path.startswith('//') and not evs[0].path.startswith('///'):
             textual = textual[1:]
-        base = 'scp' if mode == 'scp' else 'get'
         if not pc.under(dest, textual):
             return base + '-hostile-name'
         return base + '-symlink-write-through'
     kind = kind_of(r)
+    ck = (mode, json.dumps(cfg, sort_keys=True), json.dumps(hist), preserve)
+    if ck in cache:
+        return
+    cache[ck] = True
     seq = list(hist)
     i = 0
     while i < len(seq) and len(seq) > 1:
@@ -754,11 +819,13 @@ def note_dl(pc, world, found, mode, cfg, hist, r, top):
         inp = tuple(f'{x["a"]} {"/".join(x["name"])!r}' for x in seq)
     else:
         inp = tuple(ent_str(conv_ent(e, '/T')) for e in seq)
-    inp = (f'dest={cfg["dest"]}',) + inp
+    inp = (f'dest={cfg["dest"]}' + (' preserve' if preserve else ''),) + inp
+    if (kind, inp) in found:
+        return
     rr = run(seq)
     ex = [e.as_list() for e in rr['escapes'][:2]] or rr['outside']
     ex = json.loads(json.dumps(ex).replace(top, '/T'))
-    found.setdefault((kind, inp), ex)
+    found[(kind, inp)] = ex
 
 
 # --------------------------------------------------------------------------
